@@ -90,11 +90,14 @@ impl DerefMut for Instance {
 
 impl AllocateObj<Instance> for ObjRef<Class> {
   fn alloc(self) -> AllocObjResult<Instance> {
-    if self.fields() > 256 {
-      panic!("Cannot allocate class with more than 256 fields")
-    }
-
-    let slice = &NIL_ARRAY[..self.fields()];
+    // classes with more fields than the static array spill to the heap
+    let spill;
+    let slice = if self.fields() <= NIL_ARRAY.len() {
+      &NIL_ARRAY[..self.fields()]
+    } else {
+      spill = vec![VALUE_NIL; self.fields()];
+      &spill[..]
+    };
     let handle = ArrayHandle::from_slice(slice, Header::new(self));
 
     let size = handle.size();
